@@ -90,6 +90,20 @@ def carbon_case(pair):
     return "ok"
 
 
+def multiplicity_case(pair):
+    """mixtures with the same distinct molecules and the same length but different
+    multiplicities, decomposed one after the other in one process"""
+    from synrbl.SynProcessor import RSMIDecomposer
+
+    a, b = pair
+    out = []
+    for s in (a + "." + a + "." + b, a + "." + b + "." + b, b + "." + a + "." + a, a + "." + a + "." + b):
+        got, want = RSMIDecomposer.decompose(s), oracle.comp(s)
+        if got != want:
+            out.append({"smiles": s, "got": got, "want": want})
+    return out or "ok"
+
+
 CARBON_SIDES = ["C", "CC", "CC=O", "CC=O.CC=O", "CC.CC", "C.C", "CCO", "O", "CC=O.CC", "c1ccccc1", "C1=CC=CC=C1", "CCl"]
 
 
@@ -252,6 +266,12 @@ def run(tier, seed):
             res.add(Violation("carbon", r["rsmi"], r, None, ["carbon-label"],
                               "carbon label of {} is {}/{} want {}".format(
                                   r["rsmi"], r["label"], r["is_balanced"], r["want"])))
+    mpairs = [(a, b) for a, b in itertools.permutations(MIX_ALPHABET[:24], 2)]
+    r2b = pmap("checks.c07:multiplicity_case", mpairs, chunk=50, seed=seed)
+    for p, r in zip(mpairs, r2b):
+        if isinstance(r, list):
+            res.add(Violation("multiplicity", list(p), r[0], None, _key_decomp(r[0]) + ["multiplicity-sequence"],
+                              "after {0}.{0}.{1} / {0}.{1}.{1} in one process: {2} decomposes to {3}".format(p[0], p[1], r[0]["smiles"], r[0]["got"])))
     rx = list(itertools.product(CARBON_SIDES, repeat=2))
     if tier != "thorough":
         rx = [r for r in rx if r[0] in CARBON_SIDES[:8] and r[1] in CARBON_SIDES[:8]]
@@ -275,7 +295,7 @@ def run(tier, seed):
                               ["comparator", b["why"]], "compare {} vs {}: {}".format(
                                   b["r"], b["p"], b["why"])))
     res.coverage = {
-        "evaluations": len(r1) + len(r2) + len(r3) + len(r3b) + n_pairs,
+        "evaluations": len(r1) + len(r2) + 4 * len(r2b) + len(r3) + len(r3b) + n_pairs,
         "distinct_nontrivial": n_valid + len(mixes) + len(pairs) + len(bpairs) + n_pairs,
         "carbon_batches": len(bpairs),
         "rule": "distinct SMILES that RDKit parses (corpus molecules, every element Z=1..118 "
@@ -314,6 +334,10 @@ def replay(v):
         r = carbon_case((a, b))
         if isinstance(r, dict):
             out.append(Violation(v.sub, v.case, r, None, v.key, "carbon label"))
+    elif v.sub == "multiplicity":
+        r = multiplicity_case(tuple(v.case))
+        if isinstance(r, list):
+            out.append(Violation(v.sub, v.case, r[0], None, v.key, "multiplicity sequence"))
     elif v.sub == "carbon-batch":
         r = carbon_batch_case([tuple(x.split(">>")) for x in v.case])
         if isinstance(r, list):
